@@ -25,7 +25,7 @@ def matrix():
             st = exp.get('status', 'not applicable to the current tree')
             tot += 1
             own += 1 if st == 'reported' else 0
-            summ = (meta.get('summary') or '').replace('|', '/').replace('\n', ' ')
+            summ = (meta.get('summary') or meta.get('what') or '').replace('|', '/').replace('\n', ' ')
             summ = summ[:150] + ('…' if len(summ) > 150 else '')
             others = [x for x in exp.get('reported_by_properties', []) if x != pid]
             out.append('| %s | %s | %s | %s | %s | %s |' % (pid, name, summ, {'reported': '**reported**', 'silent': 'not reported', 'cannot-decide': 'exit 2'}.get(st, st),
